@@ -30,6 +30,8 @@ var palette = defaultPalette
 
 var defaultPalette = []string{"k1", "k2", "k3"}
 
+var binValue = []byte{0x00, 0xff, 'v', 0x0a, 0x22, 0xc3, 0x28, 0x00}
+
 func keyStr(k int) string {
 	if k == 0 {
 		return ""
@@ -49,6 +51,10 @@ func valBytes(v int) []byte {
 
 	if v == 4 {
 		return []byte{} // the empty value (allowed by Put; only nil is refused)
+	}
+
+	if v == 5 {
+		return binValue // wave 5: a value that is not text (NUL, invalid UTF-8, a quote, a newline)
 	}
 
 	return []byte(fmt.Sprintf("v%d", v))
@@ -103,6 +109,10 @@ func valNum(b []byte) int {
 
 	if len(b) == 0 {
 		return 4
+	}
+
+	if string(b) == string(binValue) {
+		return 5
 	}
 
 	if n, _ := fmt.Sscanf(string(b), "v%d", &v); n == 1 && string(valBytes(v)) == string(b) {
@@ -1007,9 +1017,12 @@ func runCase(kind string, c Case, tr *hx.Trace, withCoq bool) {
 
 // ---------- generators ----------
 
-var tagSets = [][]Tag{nil, {{1, 1}}, {{1, 2}}, {{2, 1}}, {{1, 1}, {2, 2}}, {{1, 2}, {2, 0}}, {{2, 2}}, {{1, 0}}}
+var tagSets = [][]Tag{nil, {{1, 1}}, {{1, 2}}, {{2, 1}}, {{1, 1}, {2, 2}}, {{1, 2}, {2, 0}}, {{2, 2}}, {{1, 0}},
+	// wave 5: a third tag name, three tags on one entry, one value under two names
+	{{3, 1}}, {{1, 1}, {2, 1}, {3, 3}}, {{3, 0}, {1, 2}}}
 
-var queries = [][]Tag{{{1, 0}}, {{1, 1}}, {{1, 2}}, {{2, 0}}, {{2, 2}}, {{1, 1}, {2, 2}}, {{1, 0}, {2, 0}}, {{1, 1}, {1, 2}}, {{1, 2}, {1, 0}}, {{3, 0}}}
+var queries = [][]Tag{{{1, 0}}, {{1, 1}}, {{1, 2}}, {{2, 0}}, {{2, 2}}, {{1, 1}, {2, 2}}, {{1, 0}, {2, 0}}, {{1, 1}, {1, 2}}, {{1, 2}, {1, 0}}, {{3, 0}},
+	{{3, 1}}, {{3, 3}, {1, 1}}, {{2, 1}}}
 
 func randTags(r *hx.Rng) []Tag {
 	if r.Intn(25) == 0 {
@@ -1037,6 +1050,8 @@ func randOp(r *hx.Rng, st Stack) Op {
 			v = 0
 		} else if r.Intn(8) == 0 {
 			v = 4 // empty value
+		} else if r.Intn(8) == 0 {
+			v = 5 // binary value
 		}
 
 		return Op{Kind: "put", K: randKey(r), V: v, T: randTags(r)}
@@ -1046,6 +1061,10 @@ func randOp(r *hx.Rng, st Stack) Op {
 		return Op{Kind: "tags", K: randKey(r)}
 	case x < 53:
 		n := r.Intn(4)
+		if r.Intn(4) == 0 {
+			n = 4 + r.Intn(3) // wave 5: more keys than the alphabet has, so some key is asked for several times
+		}
+
 		ks := make([]int, n)
 
 		for i := range ks {
